@@ -2,6 +2,7 @@
 import json
 from ..common import *
 from .. import proofgate, composer
+from .. import jubjub as J
 
 THEOREMS = ["C07_append_witness", "C07_append_gate", "C07_append_evaluated_output", "C07_gate_add", "C07_select",
             "C07_range", "C07_decomposition", "C07_truncate", "C07_logic", "C07_sequence"]
@@ -13,6 +14,63 @@ def value_classes(rng, k):
 
 def point_ops_available():
     return os.path.exists(os.path.join(VERIF, "harness", "src", "points.rs"))
+
+def pole_pair(rng, sign):
+    """two coordinate pairs on a pole of the addition law: d*x1*y2*y1*x2 = sign (1+t = 0 or 1-t = 0)"""
+    x1, y1, x2 = (rng.scalar() or 1), (rng.scalar() or 1), (rng.scalar() or 1)
+    y2 = sign * J.inv(D_ED * x1 % R * y1 % R * x2 % R) % R
+    return (x1, y1), (x2, y2)
+
+def doubling_pole(rng, sign):
+    """(x, y) with d*x^2*y^2 = sign, if it exists for a random x"""
+    for _ in range(64):
+        x = rng.scalar() or 1
+        y = J.sqrt(sign * J.inv(D_ED * x % R * x % R) % R)
+        if y: return (x, y)
+    return None
+
+def point_classes(rng):
+    P = J.random_subgroup_point(rng); T = J.torsion_points()
+    cls = [("identity", J.ID, J.ID), ("P,-P", P, J.neg(P)), ("P,P", P, P), ("subgroup", P, J.random_subgroup_point(rng)),
+           ("torsion", T[1], T[3]), ("mixed order", J.add(P, T[5]), T[2]), ("off-curve (0,0)", (0, 0), (0, 0)),
+           ("off-curve random", (rng.scalar(), rng.scalar()), (rng.scalar(), rng.scalar())),
+           ("pole 1+t=0",) + pole_pair(rng, -1), ("pole 1-t=0",) + pole_pair(rng, 1)]
+    for sg in (1, -1):
+        dp = doubling_pole(rng, sg)
+        if dp: cls.append((f"doubling pole {'1-t' if sg == 1 else '1+t'}=0", dp, dp))
+    return cls
+
+def point_section(ck, rng, quick):
+    e = lambda p, z=1: " ".join(hx(v) for v in J.ext(p, z))
+    raw = lambda p: f"w {hx(p[0])}\nw {hx(p[1])}"
+    tmpls = ["padd $0 $1 $2 $3", "psub $0 $1 $2 $3", "pneg $0 $1", "pselid $4 $0 $1", "pselpt $4 $0 $1 $2 $3", "tors $0 $1",
+             "torsq $0 $1 {q}", "aeqp $0 $1 $2 $3", "pmul $4 $0 $1"]
+    lines, progs, groups = [], {}, {}
+    for ti, t in enumerate(tmpls):
+        for ci, (tag, A, B) in enumerate(point_classes(rng)):
+            for b in ([0, 2] if ti in (3, 4, 8) else [1]):
+                name = f"p{ti}_{ci}_{b}"
+                L = raw(A).split("\n") + raw(B).split("\n") + ["w " + hx(b if ti != 8 else [0, 1, (1 << 252) - 1][b] if b < 3 else b), t.replace("{q}", f"{hx(B[0])} {hx(B[1])}"), "snap"]
+                progs[name] = L; groups.setdefault(ti, []).append(name)
+                lines.append("prog " + name); lines.extend(L)
+                ck.count(("pt", t, tag, b), kind="point component: " + t.split()[0])
+    # entry points taking an extended representation: Z = 0, inconsistent T1*T2, torsion, off-curve
+    P = J.random_subgroup_point(rng); T = J.torsion_points()
+    exts = [("Z=0", f"{hx(P[0])} {hx(P[1])} 0 {hx(P[0])} {hx(P[1])}"), ("Z=0 all zero", "0 0 0 0 0"), ("honest Z=1", e(P)), ("honest Z=7", e(P, 7)),
+            ("inconsistent T1*T2", f"{hx(P[0])} {hx(P[1])} 1 {hx(P[0])} {hx((P[1] + 1) % R)}"), ("torsion", e(T[1])), ("off-curve", e((3, 5))), ("identity", e(J.ID))]
+    for ei, (tag, ex) in enumerate(exts):
+        for op in ("pt", "ppt", "cpt", "mulgen $0", "aeqpp 0 1"):
+            name = f"e{ei}_{op.split()[0]}"
+            L = ["w " + hx(rng.randrange(J.RJ)), f"{op} {ex}", "snap"]
+            progs[name] = L; lines.append("prog " + name); lines.extend(L)
+            ck.count(("ext", op, tag), kind="extended representation: " + tag)
+    for k in (0, 1, J.RJ - 1, J.RJ, R - 1, (1 << 252) - 1, rng.randrange(J.RJ)):
+        name = f"g_{k % 9973}"
+        L = ["w " + hx(k), f"mulgen $0 {e(J.GEN)}", "snap"]
+        progs[name] = L; groups.setdefault("mulgen", []).append(name) if k < J.RJ else None
+        lines.append("prog " + name); lines.extend(L)
+        ck.count(("mulgen", k), kind="mul_generator scalar classes")
+    return lines, progs, groups
 
 def run(ck):
     quick = ck.tier == "quick"
@@ -43,6 +101,9 @@ def run(ck):
             progs[name] = L; groups.setdefault(ci, []).append(name)
             lines.append("prog " + name); lines.extend(L)
             ck.count((tmpl, a, b, c), kind=kind)
+    pl, pp, pg = point_section(ck, rng, quick)
+    lines += pl; progs.update(pp)
+    for k_, v_ in pg.items(): groups["pt%s" % k_] = v_
     script = "\n".join(lines) + "\n"
     rc, out_c, err_c = run_harness(script, "c07", "composer", checked=True)
     if rc != 0: raise BuildError("checked harness failed: " + err_c[-1500:])
@@ -55,8 +116,8 @@ def run(ck):
     for name, L in progs.items():
         pl = [l for l in impl.get(name, []) if l.startswith("PANIC")]
         if pl:
-            ck.violation(f"component panicked during circuit construction: {L[3]} with values {L[:3]}: {pl[0]}",
-                         {"failing_input_found": True, "program": L}, key="panic:" + L[3].split()[0])
+            ck.violation(f"component panicked during circuit construction: {L[-2][:60]} with values {[x[:40] for x in L[:-2]]}: {pl[0]}",
+                         {"failing_input_found": True, "program": L}, key="panic:" + L[-2].split()[0])
             break
     # (2) the layout is the same for every value class, and is the model's
     def shape_of(lines_):
@@ -71,18 +132,18 @@ def run(ck):
         if bad_shape: break
     if bad_shape:
         a, b = bad_shape
-        ck.violation(f"shape depends on witness values: {progs[a][3]} emits different gates / public-input rows / witness count for inputs {progs[a][:3]} and {progs[b][:3]}",
-                     {"failing_input_found": True, "program": progs[b], "program_reference": progs[a]}, key="shape:" + progs[a][3].split()[0])
+        ck.violation(f"shape depends on witness values: {progs[a][-2][:60]} emits different gates / public-input rows / witness count for inputs {[x[:40] for x in progs[a][:-2]]} and {[x[:40] for x in progs[b][:-2]]}",
+                     {"failing_input_found": True, "program": progs[b], "program_reference": progs[a]}, key="shape:" + progs[a][-2].split()[0])
     bad = composer.compare_programs(ck, progs, impl, model, "C07")
     if bad and not ck.violations:
         name, d = bad[0]
-        ck.violation(f"correspondence C07 (L3) broke on {len(bad)} of {len(progs)} programs; first {name}: {progs[name][3]}: {d}",
+        ck.violation(f"correspondence C07 (L3) broke on {len(bad)} of {len(progs)} programs; first {name}: {progs[name][-2][:60]}: {d}",
                      {"failing_input_found": False, "correspondence": "L3 snapshot vs Composer/Components.v (shape theorems are about this model)", "program": progs[name], "diff": d,
                       "theorems_no_longer_tied": THEOREMS})
     return ck.finish(level="proof",
-        rule="every modelled public component x every const-generic width it accepts x value classes {0, 1, -1, r_jubjub, r_jubjub-1, 2^k, 2^k-1, 2, 3, random}; harness built with debug assertions and overflow checks, each call under catch_unwind; layouts compared across value classes (impl vs impl) and with the model",
+        rule="every modelled public component (incl. the curve-point components and entry points) x every const-generic width it accepts x value classes {0, 1, -1, r_jubjub, r_jubjub-1, 2^k, 2^k-1, 2, 3, random}; harness built with debug assertions and overflow checks, each call under catch_unwind; layouts compared across value classes (impl vs impl) and with the model",
         assumptions=["the Gallina model is total by construction: absence of panics is established by the run-time check, not by a theorem",
-                     "curve-point components are covered by the C12-C14 checks"],
+                     "curve-point components: rows proved value-independent per block (C12_add_emits, C13_torsion_emits, C14_canonical_emits); panic-freedom and cross-value layout equality checked here on identity / inverse pairs / torsion / off-curve / both poles of the addition law / Z=0 representations"],
         checker_cmd=proofgate.CHECKER_CMD, trusted_base=proofgate.TRUSTED, extra={"exhaustive_over_widths": True})
 
 def replay(ck, path):
